@@ -35,7 +35,8 @@ TlsFails == << EncRecordRaw(22, 771, <<99, 0, 0, 0>>), EncRecordRaw(21, 771, <<>
 DtlsFails == << EncDtlsRecord(23, 65277, 0, <<0, 0, 3>>, <<1>>), EncDtlsRecord(23, 65277, 1, <<0, 0, 4>>, Fill(1, 100)),
                 EncDtlsRecord(22, 65277, 0, <<0, 0, 3>>, <<>>), EncDtlsRecord(24, 65277, 0, <<0, 0, 3>>, <<1, 0, 0>>),
                 EncDtlsRecord(22, 65277, 0, <<0, 0, 5>>, EncDtlsHs(4, 2, 0, 0, 2, <<1, 2>>)), EncDtlsRecord(20, 65277, 0, <<0, 0, 6>>, <<2>>) >>
-Idx(n) == SetToSeq(UNION {[1..k -> 1..n] : k \in 0..2} \cup {<<1, 2, 3>>, <<3, 3, 3>>, <<2, 1, 2>>})
+Idx(n) == SetToSeq(UNION {[1..k -> 1..n] : k \in 0..(IF Thorough THEN 3 ELSE 2)} \cup {<<1, 2, 3>>, <<3, 3, 3>>, <<2, 1, 2>>}
+                   \cup (IF Thorough THEN {[h \in 1..6 |-> ((h * q) % n) + 1] : q \in 1..12} ELSE {}))
 Build(pool, tails, fn, single) ==
   LET ix == Idx(Len(pool)) IN
   Concat([q \in 1..Len(ix) |->
